@@ -10,10 +10,10 @@
    list) -- and golang.org/x/text/language: the locale fall-back list is an
    input of [provider_bundle].  PluralCase is a Section variable.
 
-   The model describes the tree AFTER the three C11 repairs
-   (notes/pending/C11-*.diff): the extractor skips an empty message, Validate
-   checks that the msgid reads back as the message, newBundle skips entries
-   whose msgstr are all empty.  The pinned variants are kept at the end for the
+   The model describes the tree with the three C11 repairs (commits b7ce862,
+   1664d1a, b24e43c; notes/applied/C11-*.diff): the extractor skips an empty
+   message, Validate checks that the msgid reads back as the message, newBundle
+   skips entries whose msgstr are all empty.  The pinned variants are kept at the end for the
    refutations in Properties/C11.v.
 
    The with-bundle walker is written in the open-recursion style of
@@ -135,8 +135,10 @@ Fixpoint list_eqb (x y : list bstr) : bool :=
 Definition flat_node (n : node) : bool :=
   match n with NRawText _ _ | NMsgPlaceholder _ _ _ => true | _ => false end.
 
-(* readsBack (repair C11-validate-readback): soymsg.Parts splits the string
-   written for the body into the body's own placeholders, in order *)
+(* readsBack (repair 1664d1a): every child is text or a placeholder, and the
+   placeholder parts that soymsg.Parts finds in the string written for the body
+   are the body's own placeholders, name by name.  (Proofs: reads_back_sound --
+   then the text parts are the body's own text, too.) *)
 Definition reads_back (body : list node) : bool :=
   forallb flat_node body &&
   list_eqb (part_names (parts (write_body body))) (part_names (body_parts body)).
@@ -178,7 +180,7 @@ Record pot_entry := {
 Definition extract_msg (id : N) (meaning desc : bstr) (body : list node) : outcome (option pot_entry) :=
   _ <- validate body ;;
   match body with
-  | [] => Ok None                               (* repair C11-extract-empty-msg *)
+  | [] => Ok None                               (* repair b7ce862 *)
   | first :: _ =>
       let v := match first with NMsgPlural _ vn _ _ _ => vn | _ => [] end in
       i <- msgid body ;; ip <- msgid_plural body ;;
@@ -212,7 +214,7 @@ Fixpoint bundle_put (bd : bundle) (id : N) (m : cmsg) : bundle :=
   | (i, x) :: r => if i =? id then (i, m) :: r else (i, x) :: bundle_put r id m
   end.
 
-(* repair C11-untranslated-entry *)
+(* repair b24e43c *)
 Definition is_translated (strs : list bstr) : bool :=
   existsb (fun s => match s with [] => false | _ => true end) strs.
 
